@@ -349,7 +349,8 @@ def _hx_obs(G, nodes, its):
     from synkit.Graph.Hyrogen._misc import h_to_explicit, h_to_implicit
     e = h_to_explicit(G, nodes, its)
     i0 = h_to_implicit(G)
-    return [[gr_obs(e), gr_obs(h_to_implicit(e)), gr_obs(i0)], _total_h(G), _total_h(e), _total_h(i0), _py_h_dom(G), True]
+    return [[[gr_obs(e), gr_obs(h_to_implicit(e)), gr_obs(i0)], _total_h(G), _total_h(e), _total_h(i0), _py_h_dom(G), True],
+            True, all(d.get("element") != "H" for _, d in G.nodes(data=True)), all(d.get("typesGH") is None for _, d in G.nodes(data=True))]
 
 
 def impl(case):
@@ -392,7 +393,8 @@ def impl(case):
             c = get_rc(I) if core else I
             r, p = its_decompose(c)
             text = its_to_gml(to_nx(case["its"]), core=core, reindex=reindex, explicit_hydrogen=eh)
-            out.append([[gr_ord_obs(c), gr_ord_obs(r), gr_ord_obs(p), rec_obs(text_to_rec(text)), parsed_obs(text)], _py_its_ok(c)])
+            out.append([[[gr_ord_obs(c), gr_ord_obs(r), gr_ord_obs(p), rec_obs(text_to_rec(text)), parsed_obs(text)], _py_its_ok(c)],
+                        True, all(d.get("typesGH") is not None for _, d in I.nodes(data=True))])
         return out
     if k == "smart":
         from synkit.IO.chem_converter import smart_to_gml
@@ -420,13 +422,13 @@ def coq_case(case):
             return "run_extract %s" % clist([enc_str(l) for l in case["labels"]])
         if k == "hx":
             nodes = case["nodes"]
-            return "run_hx2 %s %s %s" % (enc_gr(case["g"]), copt(None if nodes is None else clist([cN(n) for n in nodes])),
+            return "run_hx3 %s %s %s" % (enc_gr(case["g"]), copt(None if nodes is None else clist([cN(n) for n in nodes])),
                                         cbool(case["its"]))
         if k == "mol":
             g = mol_graph(case["smiles"])
             if g is None:
                 return None
-            return "run_hx2 %s None false" % enc_gr(g)
+            return "run_hx3 %s None false" % enc_gr(g)
         if k == "parse":
             return "run_parse %s" % enc_rec(case["rec"])
         if k == "transform":
@@ -434,7 +436,7 @@ def coq_case(case):
                                                             cbool(a), cbool(b)) for a, b in case["cfgs"]])
         if k == "its":
             g = enc_gr(case["its"])
-            return "(let g := %s in %s)" % (g, clistL(["run_its2 g %s %s %s" % (cbool(a), cbool(b), cbool(c))
+            return "(let g := %s in %s)" % (g, clistL(["run_its3 g %s %s %s" % (cbool(a), cbool(b), cbool(c))
                                                         for a, b, c in case["cfgs"]]))
         if k == "smart":
             x = rxn_graphs(case["rsmi"])
@@ -757,7 +759,7 @@ def oracle(case):
 
 def _rec_of(k, o):
     """the GML record inside one per-configuration observable"""
-    return o[0][-2] if k == "its" else o[-2]
+    return o[0][0][-2] if k == "its" else o[-2]
 
 
 def nontrivial(case, obs):
@@ -799,8 +801,10 @@ def distribution(cases, obss):
             d["mol_sources"][c.get("src", "?")] = d["mol_sources"].get(c.get("src", "?"), 0) + 1
         if k == "label":
             d["charged_labels"] += sum(1 for x in c["charges"] if x)
-        if k in ("hx", "mol") and isinstance(o, list) and len(o) == 6:
-            d["h_dom"][str(bool(o[4]))] = d["h_dom"].get(str(bool(o[4])), 0) + 1
+        if k in ("hx", "mol") and isinstance(o, list) and len(o) == 4:
+            d["h_dom"][str(bool(o[0][4]))] = d["h_dom"].get(str(bool(o[0][4])), 0) + 1
+            if o[2]:
+                d["no_H_graphs"] = d.get("no_H_graphs", 0) + 1
         if k == "hx":
             hs = [n for n, a in c["g"]["nodes"] if a.get("element") == "H"]
             if not hs and any((a.get("hcount") or 0) > 0 for _, a in c["g"]["nodes"]):
@@ -821,7 +825,7 @@ def distribution(cases, obss):
                 for oo in o:
                     rec = _rec_of(k, oo)
                     if k == "its":
-                        d["its_ok_exports"][str(bool(oo[1]))] = d["its_ok_exports"].get(str(bool(oo[1])), 0) + 1
+                        d["its_ok_exports"][str(bool(oo[0][1]))] = d["its_ok_exports"].get(str(bool(oo[0][1])), 0) + 1
                     if len(rec) == 3:
                         ids = {e[1] for s in rec for e in s[1] if e[0] == 0}
                         b = str(min(len(ids), 12))
